@@ -77,3 +77,36 @@ Proof.
     rewrite IH. destruct (fieldwise e (map snd r) s p1) as [[vs p2]|]; cbn [bind fst snd]; [|reflexivity].
     cbn [rev]. rewrite map_app. cbn [map snd]. now rewrite <- app_assoc.
 Qed.
+
+(* ---------- however the members are grouped into blocks ---------- *)
+Lemma fieldwise_app e : forall a b s pos,
+  fieldwise e (a ++ b) s pos = do r1 <- fieldwise e a s pos; do r2 <- fieldwise e b s (snd r1); Ok (fst r1 ++ fst r2, snd r2).
+Proof.
+  induction a as [|p a IH]; intros b s pos; cbn [app fieldwise bind fst snd].
+  - destruct (fieldwise e b s pos) as [[v q]|]; reflexivity.
+  - destruct (prim_read_at e p s pos) as [[x p1]|]; cbn [bind fst snd]; [|reflexivity]. rewrite IH.
+    destruct (fieldwise e a s p1) as [[va qa]|]; cbn [bind fst snd]; [|reflexivity].
+    destruct (fieldwise e b s qa) as [[vb qb]|]; reflexivity.
+Qed.
+(* reading block after block, each with one stream read and one unpack *)
+Fixpoint blocks_read (e : string) (blocks : list (list prim)) (s : list Z) (pos : Z) : result (list value * Z) :=
+  match blocks with
+  | [] => Ok ([], pos)
+  | b :: r => do x <- block_read e b s pos; do y <- blocks_read e r s (snd x); Ok (fst x ++ fst y, snd y)
+  end.
+Lemma fieldwise_nonneg e : forall ps s pos vs q, 0 <= pos -> fieldwise e ps s pos = Ok (vs, q) -> 0 <= q.
+Proof.
+  induction ps as [|p ps IH]; intros s pos vs q H0 H; cbn [fieldwise] in H; [injection H as _ <-; exact H0|].
+  destruct (prim_read_at e p s pos) as [[x p1]|] eqn:E; [|discriminate]. cbn [bind fst snd] in H.
+  destruct (fieldwise e ps s p1) as [[v2 q2]|] eqn:E2; [|discriminate]. cbn [bind fst snd] in H. injection H as _ <-.
+  destruct (prim_read_at_shift [] e p s pos [] H0) as [_ P]. cbn beta in P. exact (IH _ _ _ _ (P _ _ E) E2).
+Qed.
+Theorem any_blocking_is_fieldwise e : forall blocks s pos,
+  Forall (fun b => Forall (fun p => fixed_scalar p <> None) b /\ Z.of_nat (fmt_size b) <= 9223372036854775807) blocks -> 0 <= pos ->
+  blocks_read e blocks s pos = fieldwise e (List.concat blocks) s pos.
+Proof.
+  induction blocks as [|b r IH]; intros s pos Hb H0; [reflexivity|]. inversion Hb as [|? ? [Hf Hs] Hr]; subst.
+  cbn [blocks_read List.concat]. rewrite fieldwise_app, (block_is_fieldwise e b s pos Hf H0 Hs).
+  destruct (fieldwise e b s pos) as [[v q]|] eqn:E; cbn [bind fst snd]; [|reflexivity].
+  rewrite (IH s q Hr (fieldwise_nonneg e b s pos v q H0 E)). reflexivity.
+Qed.
